@@ -190,6 +190,10 @@ type Lifetime struct {
 	Sched   *SchedSpec        `json:"sched,omitempty"`
 	Faults  []Fault           `json:"faults,omitempty"`
 	Note    string            `json:"note,omitempty"`
+	// PreDelete: before this lifetime starts, the driver deletes the n-th (modulo the
+	// number present, in path order) standalone snapshot file - a user removing a
+	// file by hand. 0 = nothing.
+	PreDelete int `json:"predelete,omitempty"`
 	// FreshCfg: build a new Config from the same options for every call
 	// (differential oracle of property C12).
 	FreshCfg bool `json:"freshcfg,omitempty"`
